@@ -742,12 +742,26 @@ func famWalk(steps int) func(s *scenario) {
 		for i := 0; i < steps; i++ {
 			d := ds[s.rnd.Intn(n)]
 			signer := pool[s.rnd.Intn(len(pool))]
-			if s.rnd.Intn(3) == 0 {
-				signer = d.k
+			switch x := s.rnd.Intn(10); {
+			case x < 5 && len(d.spec.vms) > 0: // a key the DID lists now (under any relationship)
+				signer = d.spec.vms[s.rnd.Intn(len(d.spec.vms))].k
+			case x < 8 && len(d.spec.controllers) > 0: // a key of one of its controllers
+				for _, o := range ds {
+					if o.id.Equals(d.spec.controllers[s.rnd.Intn(len(d.spec.controllers))]) && len(o.spec.vms) > 0 {
+						signer = o.spec.vms[s.rnd.Intn(len(o.spec.vms))].k
+					}
+				}
 			}
 			owner := d
-			if o := listed[signer]; len(o) > 0 && s.rnd.Intn(4) != 0 {
+			if o := listed[signer]; len(o) > 0 {
 				owner = o[s.rnd.Intn(len(o))]
+				for _, c := range o { // mostly a DID that lists the key now
+					for _, v := range c.spec.vms {
+						if v.k == signer && s.rnd.Intn(2) == 0 {
+							owner = c
+						}
+					}
+				}
 			}
 			// the proposed document
 			spec := d.spec.clone()
@@ -791,7 +805,16 @@ func famWalk(steps int) func(s *scenario) {
 			cand = append(cand, s.e.root)
 			var prevs []dag.Transaction
 			seen := map[string]bool{}
-			for k := 1 + s.rnd.Intn(3); k > 0; k-- {
+			if s.rnd.Intn(3) != 0 { // mostly the shape the node itself publishes: the DID's latest, then the signer DID's latest
+				seen[d.latest().Ref().String()] = true
+				prevs = append(prevs, d.latest())
+				if owner != d {
+					seen[owner.latest().Ref().String()] = true
+					prevs = append(prevs, owner.latest())
+				}
+				s.rnd.Shuffle(len(prevs), func(i, j int) { prevs[i], prevs[j] = prevs[j], prevs[i] })
+			}
+			for k := s.rnd.Intn(3) + 1 - min(1, len(prevs)); k > 0; k-- {
 				t := cand[s.rnd.Intn(len(cand))]
 				if !seen[t.Ref().String()] {
 					seen[t.Ref().String()] = true
@@ -847,8 +870,8 @@ func jobs(thorough bool, rnd *rand.Rand) []job {
 		nr := len(rules) + len(rawPayloads)
 		a := rnd.Intn(nr - 6)
 		_ = a
-		for from := 0; from < nr; from += 8 {
-			add("validator", famValidator(from, from+8, rnd.Intn(2) == 0))
+		for from := 0; from < nr; from += 4 {
+			add("validator", famValidator(from, from+4, rnd.Intn(2) == 0))
 		}
 		add("chain", famChain(1, false, -1))
 		add("chain", famChain(2+rnd.Intn(4), rnd.Intn(2) == 0, -1))
@@ -896,9 +919,9 @@ func jobs(thorough bool, rnd *rand.Rand) []job {
 		add("shared-key", famSharedKey(true))
 	}
 	nr := len(rules) + len(rawPayloads)
-	for from := 0; from < nr; from += 5 {
-		add("validator/update", famValidator(from, from+5, false))
-		add("validator/create", famValidator(from, from+5, true))
+	for from := 0; from < nr; from += 4 {
+		add("validator/update", famValidator(from, from+4, false))
+		add("validator/create", famValidator(from, from+4, true))
 	}
 	for depth := 1; depth <= 6; depth++ {
 		for _, shared := range []bool{false, true} {
